@@ -399,7 +399,7 @@ func genC18Case(r *Rng, i int, tier string, bytesProb float64) *Scenario {
 		// byte-level alphabets: keys and literals are byte strings, not text; the
 		// order-preserving relabelling keeps every region relation of the case
 		ab := pick(r, [][3]string{{"a", "b", "\xff"}, {"\x00", "a", "\xff"}, {"\x7f", "\x80", "\xff"}, {"a", "\xfe", "\xff"},
-			{"\x00", "\x01", "\x02"}, {"A", "a", "~"}, {"\xc3", "\xe9", "\xff"}, {"a", "b", "\xc3\xa9"}})
+			{"\x00", "\x01", "\x02"}, {"A", "a", "~"}, {"A", "B", "C"}, {"A", "B", "C"}, {"B", "b", "c"}, {"\xc3", "\xe9", "\xff"}, {"a", "b", "\xc3\xa9"}})
 		re := func(t string) string {
 			var b strings.Builder
 			for j := 0; j < len(t); j++ {
